@@ -71,7 +71,15 @@ notes={"C04-a":"C06 (after the `ch_outer_sni_changed` retry variant was added; C
  "C14-i":"C16 as it was; C14 after Resolve was repeated on a caching resolver (same outcome every time)",
  "C15-i":"C15 (after 16-byte IPv4-mapped addresses were generated)",
  "C17-i":"C19 as it was (Host override); C17 after the Transport mode got a Host header override",
- "C19-i":"C19 (after Dialer.Resolver was set on the Transport's Dialer in half of the cases)"}
+ "C19-i":"C19 (after Dialer.Resolver was set on the Transport's Dialer in half of the cases)",
+ "C01-j":"C05 and C01 (after another client's connection was accepted before the first connection's backend had read a byte)",
+ "C02-j":"C02 (after public names got mixed case and the key material was snapshotted around NewConn and reused for a second connection)",
+ "C03-j":"C03 (after EncodedClientHelloInner was also sent with a session id of its own: refused, or forwarded with ClientHelloOuter's)",
+ "C05-j":"C05 (after NewConn got a debug callback that formats its arguments in half of the cases)",
+ "C08-j":"C08 (after the `backend` stage was added: ServerHello / HelloRetryRequest look-alikes cut short or lying about their lengths, behind an accepted connection)",
+ "C14-j":"C14 (after the `mixed` stage was added: RRsets holding alias and service records side by side resolve the same with and without cache)",
+ "C17-j":"C17 (after Dialer.Resolver was set in Transport mode and every target had to be tried when nothing succeeded); C19 caught it as it was",
+ "C20-j":"C20 (after a delegated child zone and a parent record of the same fully qualified name, and targets naming another zone's record, were generated)"}
 rows=["| Seed | Breaks | Change (summary) | Needs to manifest | Caught by (quick tier) |","|---|---|---|---|---|"]
 for d in sorted(glob.glob('/verif/seeded/*/meta.json')):
     m=json.load(open(d)); sid=m['seed_id']
@@ -87,6 +95,6 @@ end=s.rindex("\n",0,end)+1
 s=s[:start]+"\n".join(rows)+"\n\n"+s[end:]
 import re
 s=re.sub(r"\w+ rounds of sub-agents produced \d+ distinct confirmed changes \(duplicates of an\nearlier idea were dropped\)\. \w+ of them were missed by the version of the\nchecks that existed when they arrived and led to the strengthenings named in\nthe last column; all \d+ are now reported by the quick tier at `VERIF_SEED=1`\.",
- f"Nine rounds of sub-agents produced {n} distinct confirmed changes (duplicates of an\nearlier idea were dropped). {len(notes)} of them were missed by the version of the\nchecks that existed when they arrived and led to the strengthenings named in\nthe last column; all {n} are now reported by the quick tier at `VERIF_SEED=1`.", s)
+ f"Ten rounds of sub-agents produced {n} distinct confirmed changes (duplicates of an\nearlier idea were dropped). {len(notes)} of them were missed by the version of the\nchecks that existed when they arrived and led to the strengthenings named in\nthe last column; all {n} are now reported by the quick tier at `VERIF_SEED=1`.", s)
 open('/verif/DESIGN.md','w').write(s)
 print(n, len(notes))
